@@ -490,6 +490,13 @@ class ExprMixin:
             r = self.order_special(op, a, b, st, node)
             if r is not None:
                 return r
+        if isinstance(op, (ast.Eq, ast.NotEq)):
+            for x, y in ((a, b), (b, a)):
+                if isinstance(x.ty, T.Ref) and not x.is_py and not isinstance(y.ty, T.Ref):
+                    hook = getattr(self.class_of(x.ty), "eq", None)
+                    if hook is not None:
+                        r = hook(self, st, x, y, node)  # a library value modelled as an object, compared with a plain value
+                        return z_not(r) if isinstance(op, ast.NotEq) else r
         if isinstance(op, (ast.In, ast.NotIn)):
             a = self.resolve_union(a, st)
         if isinstance(op, (ast.Eq, ast.NotEq)) and (isinstance(a.ty, T.Union) != isinstance(b.ty, T.Union)):
@@ -566,8 +573,10 @@ class ExprMixin:
                 mod, qn = cs.repo.split(":")
                 pycls = getattr(importlib.import_module(mod), qn)
                 for k in pycls.__mro__:
-                    if name in k.__dict__ and not callable(k.__dict__[name]) and not isinstance(k.__dict__[name], (property, staticmethod, classmethod)):
-                        return self.wrap_py(k.__dict__[name], name)
+                    import inspect as _inspect
+
+                    if name in k.__dict__ and (not callable(k.__dict__[name]) or _inspect.isclass(k.__dict__[name])) and not isinstance(k.__dict__[name], (property, staticmethod, classmethod)):
+                        return self.wrap_py(k.__dict__[name], name)  # class-level constant, or a nested class (`self.Origin`)
             raise Unsupported(f"attribute {cs.name}.{name} is not declared in the contract vocabulary", node)
         if isinstance(recv.ty, T.Enum):
             import enum as _enum
